@@ -33,7 +33,7 @@ RULE = (
 )
 ASSUMPTIONS = ["helper parameters annotated Any (eq/ne/gt/ge/lt/le value, call_method args) are exercised as constants only"]
 FLOORS = {"bracketings_compared": (1500, 30000), "identity_checks": (400, 8000), "split_checks": (1500, 30000), "rshift_checks": (400, 8000),
-          "param_key_checks": (400, 8000), "reuse_checks": (300, 6000), "helper_cases": (170, 170), "helper_cases_with_option_argument": (70, 70), "helpers_covered": (60, 60)}
+          "param_key_checks": (400, 8000), "reuse_checks": (300, 6000), "helper_cases": (170, 170), "helper_cases_with_option_argument": (70, 70), "helpers_covered": (60, 60), "helper_reapplications": (160, 160)}
 SHARDS_QUICK = 2
 
 
@@ -439,6 +439,20 @@ def helpers(ctx):
                 if not ok:
                     ctx.violation("helper-vs-python-operation", f"F.{name} on {x!r} ({'option' if as_option else 'constant'} argument): {got!r}, expected {expected!r}", W)
                     return
+                # the evaluated step is an ordinary function: applying it again (directly, and element-wise under F.map)
+                # must give the same answer every time (no one-shot state inside the evaluated helper)
+                if mode == "transform" and isinstance(step, (Pipeline, PipelineStep)) and not (isinstance(expected, type) and issubclass(expected, Exception)):
+                    try:
+                        fn = step.evaluate(o)
+                        again = [realise(fn(copy.deepcopy(x))) for _ in range(3)]
+                        mapped = [realise(v) for v in F.map(step).transform([copy.deepcopy(x) for _ in range(3)], o)]
+                    except Exception as e:  # noqa: BLE001
+                        again = mapped = f"{type(e).__name__}: {e}"
+                    ctx.count("helper_reapplications")
+                    want = [realise(expected)] * 3
+                    if again != want or mapped != want:
+                        ctx.violation("helper-not-reusable", f"F.{name} on {x!r}: the evaluated step applied three times gives {again!r}, under F.map {mapped!r}; expected {want!r}", W)
+                        return
                 if as_option:
                     ctx.count("helper_cases_with_option_argument")
                     ks = set(step.keys(o))
